@@ -1,15 +1,25 @@
 /*@UNIT
 {
-  "property": "C02",
-  "unit": "gcm_decrypt",
-  "function": "csAesGcmDecrypt",
-  "source": "matrixssl/cipherSuite.c",
-  "keep_bodies": ["psEncodeVersionMaj", "psEncodeVersionMin", "psEncodeVersion"],
-  "assumed": ["psAesReadyGCM (model: records nonce and AAD)", "psAesDecryptGCM (model: verdict chosen by the harness input; returns plaintext length or PS_AUTH_FAIL; assumption: a real tag mismatch makes it return < 0)"],
-  "mode": "proof",
-  "why_proof": "all loops have constant bounds (8, 12, 13), fully unwound with unwinding assertions; the record is an allocation of exactly len bytes for EVERY 16-bit len (the record length field) (no loop of the function depends on len)",
-  "unwind": 14,
-  "native_replay": true
+ "property": "C02",
+ "unit": "gcm_decrypt",
+ "function": "csAesGcmDecrypt",
+ "source": "matrixssl/cipherSuite.c",
+ "keep_bodies": [
+  "psEncodeVersionMaj",
+  "psEncodeVersionMin",
+  "psEncodeVersion"
+ ],
+ "assumed": [
+  "psAesReadyGCM (model: records nonce and AAD)",
+  "psAesDecryptGCM (model: verdict chosen by the harness input; returns plaintext length or PS_AUTH_FAIL; assumption: a real tag mismatch makes it return < 0)"
+ ],
+ "mode": "proof",
+ "why_proof": "all loops have constant bounds (8, 12, 13), fully unwound with unwinding assertions; the record is an allocation of exactly len bytes for EVERY 16-bit len (the record length field) (no loop of the function depends on len)",
+ "unwind": 14,
+ "native_replay": true,
+ "properties": [
+  "C10"
+ ]
 }
 @*/
 /* C02.U1  opening a TLS 1.2 / DTLS 1.2 AES-GCM record (RFC 5288 s.3):
